@@ -1,6 +1,7 @@
 package verifsim
 
 import (
+	"os"
 	"crypto/sha256"
 	"encoding/hex"
 	"fmt"
@@ -137,6 +138,9 @@ func callSite(skip int) string {
 }
 
 func (s *Sched) ev(format string, args ...any) {
+	if traceOut {
+		fmt.Fprintf(os.Stderr, "EV sched "+format+"\n", args...)
+	}
 	s.trace = append(s.trace, fmt.Sprintf(format, args...)...)
 	s.trace = append(s.trace, '\n')
 }
